@@ -92,6 +92,7 @@ class Flow:
         self.models = [type("M", (), {"training": False})() for _ in range(n_models)]
         self.sampled = []
         self.eps_region = eps_region
+        self.max_batches = 2
 
     def q(self, j, row):
         return self.ctx.uf(f"q{j}", *[row[k] for k in range(self.d)])
@@ -111,9 +112,9 @@ class Flow:
 
     def sample_ith(self, i, N):
         ctx = self.ctx
-        if len(self.sampled) >= 2:
+        if len(self.sampled) >= self.max_batches:
             from sx.engine import OutOfBound
-            raise OutOfBound("more than two batches needed to fill the request")
+            raise OutOfBound("more batches needed to fill the request than the bound")
         out = np.empty((N, self.d), dtype=object if ctx.mode == "sym" else float)
         for r in range(N):
             for k in range(self.d):
@@ -130,6 +131,8 @@ class ModelStub:
         self.dims = d
         self.ll_args = []
         self.likelihood_evaluations = 0
+        self.prior_may_vanish = False
+        self._lp_kind = {}
 
     def _rows(self, x):
         return [[x[n][i] for n in self.names] for i in range(len(x))]
@@ -143,7 +146,13 @@ class ModelStub:
     def batch_evaluate_log_prior(self, x, unit_hypercube=False):
         out = np.empty(len(x), dtype=object if self.ctx.mode == "sym" else float)
         for i, row in enumerate(self._rows(x)):
-            out[i] = self.ctx.uf("LP", *row)
+            finite = True
+            if self.prior_may_vanish:
+                key = tuple(v.p.get_id() if hasattr(v, "p") else float(v) for v in row)
+                if key not in self._lp_kind:
+                    self._lp_kind[key] = (self.ctx.choice("prior_finite", 2) == 0, row)
+                finite = self._lp_kind[key][0]
+            out[i] = self.ctx.uf("LP", *row) if finite else -math.inf
         return out
 
     def batch_evaluate_log_prior_unit_hypercube(self, x):
@@ -231,7 +240,7 @@ def _eps_ok(ctx, p, v):
     return (v >= eps) & (v <= 1 - eps)
 
 
-def make_draw(d, n_flows, reparam, n):
+def make_draw(d, n_flows, reparam, n, vanishing_prior=False):
     def body(ctx):
         mut = getattr(ctx, "mutant", None)
         P = n_flows + 1
@@ -239,7 +248,11 @@ def make_draw(d, n_flows, reparam, n):
         total = sum(counts)
         w = [c / total for c in counts]
         p = _proposal(ctx, d, n_flows, reparam, {j - 1: w[j] for j in range(P)})
+        p.model.prior_may_vanish = vanishing_prior     # e.g. a constraint inside the unit hypercube
         samples, log_q = p.draw(n)
+        for i in range(len(samples)):
+            lp = samples["logP"][i]
+            ctx.prove(not (isinstance(lp, float) and lp == -math.inf), "every returned sample has a finite model prior")
         ctx.prove(len(samples) == n, "draw returns exactly the requested number of samples")
         if reparam == "logit":
             for nm in p.model.names:
@@ -355,6 +368,8 @@ def make_iteration(d, m, n_flows_old, reparam, iid, n_add=1):
             ctx.prove(AND(*[s["logL"][i] <= s["logL"][i + 1] for i in range(len(s) - 1)]), name + ": sorted by likelihood")
             new = [i for i in range(len(s)) if int(s["it"][i]) == ins.iteration]
             ctx.prove(len(new) == n_add, name + ": new samples are stamped with the iteration")
+            labels = [sum(1 for i in range(len(s)) if int(s["it"][i]) == j - 1) for j in range(P)]
+            ctx.prove(labels == counts, name + ": the number of stored samples labelled with each proposal = the count its mixture weight is built from")
         for row in p.model.ll_args:
             ctx.prove(AND(*[(v >= 0) & (v <= 1) for v in row]), "the likelihood is only evaluated inside the unit hypercube")
         ctx.cover("end")
@@ -400,10 +415,12 @@ def units(tier):
             for (m, nf) in ([(1, 0), (2, 1)] if q else [(1, 0), (2, 1), (3, 1), (2, 0)]):
                 if reparam == "logit" and (iid or (m, nf) != (1, 0)):
                     continue   # the full exp axioms make larger logit iterations inconclusive within 15 minutes: not claimed
-                if q and iid and (m, nf) == (2, 1):
-                    continue   # 10 minutes single-threaded: thorough tier only
+                big = iid and (m, nf) == (2, 1)   # ~10 minutes single-threaded: explored with engine-level parallelism
                 us.append(Unit(f"iteration[m={m},flows_before={nf},{reparam},iid={iid}]", make_iteration(1, m, nf, reparam, iid), MODS, nl, expect_cover=["end"],
-                               mutants=["column"] if (m, nf, reparam, iid) == (2, 1, None, False) else [], twin_runs=8, witness_every=5, setup=setup, nproc=1, time_budget_s=900))
+                               mutants=["column"] if (m, nf, reparam, iid) == (2, 1, None, False) else [], twin_runs=8, witness_every=5 if not big else 100, setup=setup,
+                               nproc=None if big else 1, heavy=big, time_budget_s=900))
+    us.append(Unit("draw[d=1,flows=1,None,n=2,vanishing_prior]", make_draw(1, 1, None, 2, vanishing_prior=True), MODS, nl0, expect_cover=["end"], twin_runs=10, witness_every=10,
+                   setup=setup, nproc=1, time_budget_s=900))
     us.append(Unit("draw_inside_eps_clip[logit]", make_eps_clip(), MODS, dict(nl0, exp_axioms="full"), expect_cover=["end"], twin_runs=5, witness_every=1, setup=setup, nproc=1))
     nl = nl0
     for iid in (False, True):
